@@ -12,6 +12,8 @@ All theorems are about the model (`TgModel/Ide/Handlers.lean`).
 import TgModel.Lemmas.IdeSemKeepsB
 import TgModel.Lemmas.IdeSemTree
 import TgModel.Lemmas.IdeSemRunFast
+import TgModel.Lemmas.IdeSemTyped
+import TgModel.Lemmas.QSortMem
 
 namespace Tg.C19
 open Tg Tg.Ide Tg.Ide.Handlers
@@ -977,5 +979,257 @@ theorem hv_hover : hoverExec hvAn 0 13 = .ok (some ⟨symbolSignature hvSm (.rec
 
 example : symbolSignature hvSm (.record 0) = "class A" := by
   simp [symbolSignature, hvSm, SymMap.addRecord, SymMap.record, SymMap.logDefine]
+
+section endToEnd
+open Tg.SymbolMap (Op Loc run)
+
+/-! ## End to end: a hint sits on a location the indexer registered for the symbol it describes -/
+
+/-- how the location `loc` got into the position map for the symbol with allocation index `gid`:
+it is the symbol's definition, or the indexer registered it as a reference to that symbol
+(`add_reference`, after resolving the name written there to that symbol) -/
+def RegisteredAt (ops : List Op) (loc : Loc) (gid : Nat) : Prop :=
+  (∃ pre name post, ops = pre ++ Op.define name loc :: post ∧ gid = (run pre).syms.length) ∨
+  (∃ pre post, ops = pre ++ Op.reference gid loc :: post ∧ gid < (run pre).syms.length)
+
+theorem fileSymbols_registered (an : Analysis) (hc : Coherent an) (idx : Index.IndexResult)
+    (hidx : an.index = .ok idx) (file : Nat) (e : Loc × Nat) (he : e ∈ fileSymbols an file) :
+    e.1.file = file ∧ RegisteredAt idx.symbolMap.ops.toList e.1 e.2 := by
+  unfold fileSymbols symbolsInRange at he
+  simp only at he
+  rw [Array.mem_toList_iff, Tg.QSort.mem_qsort, ← Array.mem_toList_iff, List.toList_toArray] at he
+  obtain ⟨hmem, hf⟩ := List.mem_filter.1 he
+  obtain ⟨hrun, _⟩ := hc idx hidx
+  rw [hrun] at hmem
+  refine ⟨by simp only [Bool.and_eq_true, beq_iff_eq] at hf; exact hf.1.1, ?_⟩
+  rcases SymbolMap.pos_origin idx.symbolMap.ops.toList {} e hmem with h | h | h
+  · cases h
+  · exact Or.inl h
+  · exact Or.inr h
+
+/-- **end-to-end hint theorem**: on a coherent analysis (every `Analysis.new ws`), every returned hint
+* sits at the first character of the `k`-th positional argument of the `ClassRef` / `ClassValue`
+  whose name identifier `loc` the indexer registered (as the definition of, or a reference to) the
+  class or multiclass `S`, and is labelled with the name of `S`'s `k`-th template parameter, or
+* sits right after the name `loc` of a `FieldLet`, which the indexer registered for the field symbol
+  whose type the label shows. -/
+theorem inlay_hint_end_to_end (an : Analysis) (hc : Coherent an) (file a b : Nat) (hab : a < b)
+    (hints : List InlayHint) (h : inlayHintExec an file a b = .ok (some hints)) (x : InlayHint)
+    (hx : x ∈ hints) :
+    ∃ idx loc gid, an.index = .ok idx ∧ loc.file = file ∧
+      RegisteredAt idx.symbolMap.ops.toList loc gid ∧ a ≤ x.position ∧ x.position ≤ b ∧
+      ((∃ (names : List String) (argList : PTree) (k : Nat) (arg : PTree) (name : String),
+          ((∃ id, idx.symbolMap.gidToSym[gid]? = some (.record id) ∧ (idx.symbolMap.record id).kind = .cls ∧
+              names = paramNames idx.symbolMap (idx.symbolMap.record id)) ∨
+           (∃ id, idx.symbolMap.gidToSym[gid]? = some (.multiclass id) ∧
+              names = multiclassParamNames idx.symbolMap (idx.symbolMap.multiclass id))) ∧
+          classRefArgsAt an ⟨file, loc.start, loc.stop⟩ argList ∧
+          (positionalArgs argList)[k]? = some arg ∧ names[k]? = some name ∧
+          x.position = arg.start ∧ x.label = name ++ ":") ∨
+       (∃ id, idx.symbolMap.gidToSym[gid]? = some (.recordField id) ∧
+          (∃ idNode identifierNode fieldLet,
+            coveringElement (an.ws.tree file) loc.start loc.stop = .ok idNode ∧
+            identifierNodeOf idNode false = some identifierNode ∧
+            identifierNode.parent = some fieldLet ∧ fieldLet.here.kind = .FieldLet) ∧
+          x.position = loc.stop ∧ x.label = ":" ++ (idx.symbolMap.recordField id).typ.toStr)) := by
+  obtain ⟨hlo, hhi⟩ := inlay_hints_inside_request an file a b hints h x hx
+  obtain ⟨idx, e, hidx, he, hcase⟩ := inlay_hint_origin an file a b hab hints h x hx
+  obtain ⟨hfile, hreg⟩ := fileSymbols_registered an hc idx hidx file e he
+  refine ⟨idx, e.1, e.2, hidx, hfile, hreg, hlo, hhi, ?_⟩
+  rcases hcase with ⟨id, hs, hg, hk, hcls, hxs⟩ | ⟨id, hs, hg, hmc, hxs⟩ | ⟨id, hs, hg, hfl, hxs⟩
+  · left
+    obtain ⟨argList, hargs, hlen, hall⟩ := positional_arg_hint an idx.symbolMap _ _ hs hcls
+    obtain ⟨k, hk', rfl⟩ := List.getElem_of_mem hxs
+    obtain ⟨arg, name, h1, h2, h3, h4⟩ := hall k hk'
+    exact ⟨_, argList, k, arg, name, Or.inl ⟨id, hg, hk, rfl⟩, hargs, h1, h2, h3, h4⟩
+  · left
+    obtain ⟨argList, hargs, hlen, hall⟩ := template_arg_hint an _ _ hs hmc
+    obtain ⟨k, hk', rfl⟩ := List.getElem_of_mem hxs
+    obtain ⟨arg, name, h1, h2, h3, h4⟩ := hall k hk'
+    exact ⟨_, argList, k, arg, name, Or.inr ⟨id, hg, rfl⟩, hargs, h1, h2, h3, h4⟩
+  · right
+    obtain ⟨hnav, hint, rfl, hp, hl⟩ := inlayHintRecordField_spec an _ _ hs hfl
+    simp only [List.mem_singleton] at hxs
+    subst hxs
+    exact ⟨id, hg, hnav, hp, hl⟩
+
+theorem qsort_singleton {α : Type} (x : α) (lt : α → α → Bool) : #[x].qsort lt = #[x] := by
+  have hs : (#[x].qsort lt).size = 1 := by simp [Array.qsort]
+  have hm : ∀ y, y ∈ #[x].qsort lt → y = x := fun y hy => by
+    simpa using (Tg.QSort.mem_qsort _ _ _).1 hy
+  apply Array.ext
+  · simpa using hs
+  · intro i h1 h2
+    have : i = 0 := by omega
+    subst this
+    exact hm _ (Array.getElem_mem _)
+
+def e2Sm : SymMap :=
+  (((SymMap.addTemplateArgument {} { name := "x", typ := .int, hasDefaultValue := false, defineLoc := ⟨1, 12, 13⟩ }).2.addRecord
+    { name := "A", kind := .cls, nameToTemplateArg := #[("x", 0)], defineLoc := ⟨1, 6, 7⟩ } false).2).addReference (.record 0) ⟨0, 0, 1⟩
+
+def e2An : Analysis :=
+  { ws := exWs, index := .ok { symbolMap := e2Sm, diagnostics := #[] },
+    symState := Thunk.mk fun _ => run e2Sm.ops.toList }
+
+theorem e2An_coherent : Coherent e2An := by
+  intro idx h
+  cases h
+  exact ⟨rfl, ((LogOK.empty.addTemplateArgument _).addRecord _ _).addReference _ _⟩
+
+theorem qsort_of_eq_singleton {α : Type} (as : Array α) (x : α) (lt : α → α → Bool) (h : as = #[x]) :
+    (as.qsort lt).toList = [x] := by
+  subst h; rw [qsort_singleton]
+
+theorem e2_fileSymbols : fileSymbols e2An 0 = [(⟨0, 0, 1⟩, 1)] := by
+  unfold fileSymbols symbolsInRange
+  exact qsort_of_eq_singleton _ _ _ (by decide +kernel)
+
+/-- non-vacuity of `inlay_hint_end_to_end`: a coherent analysis with one hint (the position map is the
+run of the hook log `define x; define A; reference A @ 0..1`) -/
+theorem e2_hints : inlayHintExec e2An 0 0 4 =
+    .ok (some [{ position := 2, label := "x" ++ ":", kind := .templateArg }]) := by
+  rw [inlayHintExec_eq, e2_fileSymbols]
+  show (if 4 ≤ 0 then _ else _) = _
+  rw [if_neg (by decide)]
+  rw [if_neg (by decide +kernel)]
+  have : List.mapM (entryHints e2An e2Sm 0) [(⟨0, 0, 1⟩, 1)] =
+      .ok [[{ position := 2, label := "x" ++ ":", kind := .templateArg }]] := by
+    rfl
+  simp only [this]
+  rfl
+
+example := inlay_hint_end_to_end e2An e2An_coherent 0 0 4 (by decide) _ e2_hints _ (List.mem_singleton.2 rfl)
+
+end endToEnd
+
+
+/-! ## Hover shows the declared type -/
+
+/-- the signature hover prints is the signature of the symbol found at the position -/
+theorem hover_signature (an : Analysis) (file pos : Nat) (hv : Hover)
+    (h : hoverExec an file pos = .ok (some hv)) :
+    ∃ idx s, an.index = .ok idx ∧ findSymbolAt an idx.symbolMap file pos = some s ∧
+      hv.signature = symbolSignature idx.symbolMap s := by
+  rw [hoverExec_eq] at h
+  split at h
+  · cases h
+  · rename_i idx hidx
+    split at h
+    · cases h
+    · rename_i s hs
+      split at h
+      · cases h
+      · cases h
+        exact ⟨idx, s, hidx, hs, rfl⟩
+
+/-- the signature of a field prints the type stored in its arena entry -/
+theorem signature_field (sm : SymMap) (id : Nat) (fld : RecordField) (h : sm.recordFieldList[id]? = some fld) :
+    symbolSignature sm (.recordField id) =
+      fld.typ.toStr ++ " " ++ (sm.record fld.parent).name ++ "::" ++ fld.name := by
+  simp only [symbolSignature, SymMap.recordField, getElem!_of_getElem? _ _ _ h]
+
+theorem signature_templateArg (sm : SymMap) (id : Nat) (arg : TemplateArgument)
+    (h : sm.templateArgList[id]? = some arg) :
+    symbolSignature sm (.templateArgument id) = arg.typ.toStr ++ " " ++ arg.name := by
+  simp only [symbolSignature, SymMap.templateArg, getElem!_of_getElem? _ _ _ h]
+
+theorem signature_var (sm : SymMap) (id : Nat) (v : Variable) (h : sm.variableList[id]? = some v) :
+    symbolSignature sm (.var id) = v.typ.toStr ++ " " ++ v.name := by
+  simp only [symbolSignature, SymMap.var, getElem!_of_getElem? _ _ _ h]
+
+/-- **hover shows the declared type of a field**: when the indexer (`Index.mkRec (fuel+1)`, whose
+`typ` is `indexType`) runs `indexFieldDef` on a `FieldDef` node from `c` to `c'`, then - unless the
+declaration is incomplete or its type does not resolve - the field symbol it allocates (`id`) has, in
+every later symbol map `sm` (`ArenaKeep c'.symbolMap sm`: all indexer functions only append to the
+typed arenas, `mkRec_typRel`), the signature `<ty> <record>::<name>` where `ty` is the `Ty` that
+`indexType` returned on the declaration's type node -/
+theorem hover_signature_of_declared_type (fuel : Nat) (n : PTree) (c c' : IndexCtx)
+    (h : (Index.indexFieldDef (Index.mkRec (fuel + 1)) n).run c = .ok ((), c'))
+    (sm : SymMap) (hlater : ArenaKeep c'.symbolMap sm) :
+    (Ast.fieldDefName n = none ∨ Ast.fieldDefType n = none ∨
+      (∃ nameNode c1, Ast.fieldDefName n = some nameNode ∧ (utilsIdentifier nameNode).run c = .ok (none, c1)) ∨
+      (∃ typNode c1 c2, Ast.fieldDefType n = some typNode ∧
+        (Index.indexType (Index.mkRec fuel) typNode).run c1 = .ok (none, c2))) ∨
+    ∃ nameNode name loc typNode ty c1 c2 id,
+      Ast.fieldDefName n = some nameNode ∧ (utilsIdentifier nameNode).run c = .ok (some (name, loc), c1) ∧
+      Ast.fieldDefType n = some typNode ∧
+      (Index.indexType (Index.mkRec fuel) typNode).run c1 = .ok (some ty, c2) ∧
+      id = c2.symbolMap.recordFieldList.size ∧
+      symbolDefineLoc sm (.recordField id) = loc ∧
+      symbolSignature sm (.recordField id) =
+        ty.toStr ++ " " ++ (sm.record (sm.recordField id).parent).name ++ "::" ++ name := by
+  rcases indexFieldDef_typ (mkRec_typRel (fuel + 1)).1 n c c' h with hl | hr
+  · exact Or.inl hl
+  · obtain ⟨nameNode, name, loc, typNode, typ, c1, c2, fld, h1, h2, h3, h4, h5, rfl, rfl, rfl⟩ := hr
+    have h6 := hlater.1 _ _ h5
+    refine Or.inr ⟨nameNode, _, _, typNode, _, c1, c2, _, h1, h2, h3, h4, rfl, ?_, ?_⟩
+    · simp only [symbolDefineLoc, SymMap.recordField, getElem!_of_getElem? _ _ _ h6]
+    · rw [signature_field sm _ fld h6]
+      simp only [SymMap.recordField, getElem!_of_getElem? _ _ _ h6]
+
+/-- the same for a template argument: `<ty> <name>` -/
+theorem hover_signature_of_declared_type_templateArg (fuel : Nat) (n : PTree) (c c' : IndexCtx)
+    (h : (Index.indexTemplateArgDecl (Index.mkRec (fuel + 1)) n).run c = .ok ((), c'))
+    (sm : SymMap) (hlater : ArenaKeep c'.symbolMap sm) :
+    (Ast.templateArgDeclName n = none ∨ Ast.templateArgDeclType n = none ∨
+      (∃ nameNode c1, Ast.templateArgDeclName n = some nameNode ∧ (utilsIdentifier nameNode).run c = .ok (none, c1)) ∨
+      (∃ typNode c1 c2, Ast.templateArgDeclType n = some typNode ∧
+        (Index.indexType (Index.mkRec fuel) typNode).run c1 = .ok (none, c2))) ∨
+    ∃ nameNode name loc typNode ty c1 c2 id,
+      Ast.templateArgDeclName n = some nameNode ∧ (utilsIdentifier nameNode).run c = .ok (some (name, loc), c1) ∧
+      Ast.templateArgDeclType n = some typNode ∧
+      (Index.indexType (Index.mkRec fuel) typNode).run c1 = .ok (some ty, c2) ∧
+      id = c2.symbolMap.templateArgList.size ∧
+      symbolDefineLoc sm (.templateArgument id) = loc ∧
+      symbolSignature sm (.templateArgument id) = ty.toStr ++ " " ++ name := by
+  rcases indexTemplateArgDecl_typ (mkRec_typRel (fuel + 1)).1 n c c' h with hl | hr
+  · exact Or.inl hl
+  · obtain ⟨nameNode, name, loc, typNode, typ, c1, c2, arg, h1, h2, h3, h4, h5, rfl, rfl, rfl⟩ := hr
+    have h6 := hlater.2.1 _ _ h5
+    refine Or.inr ⟨nameNode, _, _, typNode, _, c1, c2, _, h1, h2, h3, h4, rfl, ?_, ?_⟩
+    · simp only [symbolDefineLoc, SymMap.templateArg, getElem!_of_getElem? _ _ _ h6]
+    · exact signature_templateArg sm _ arg h6
+
+/-- a `defvar` has no type node: hover shows the type the indexer computed for its initialiser
+(`indexValue`), `unknown` if there is none -/
+theorem hover_signature_of_declared_type_defvar (fuel : Nat) (n : PTree) (c c' : IndexCtx)
+    (h : (Index.indexDefvar (Index.mkRec (fuel + 1)) n).run c = .ok ((), c'))
+    (sm : SymMap) (hlater : ArenaKeep c'.symbolMap sm) :
+    (Ast.defvarName n = none ∨ Ast.defvarValue n = none ∨
+      (∃ nameNode c1, Ast.defvarName n = some nameNode ∧ (utilsIdentifier nameNode).run c = .ok (none, c1))) ∨
+    ∃ nameNode name loc value ty c1 c2 id,
+      Ast.defvarName n = some nameNode ∧ (utilsIdentifier nameNode).run c = .ok (some (name, loc), c1) ∧
+      Ast.defvarValue n = some value ∧
+      (Index.indexValue (Index.mkRec fuel) value).run c1 = .ok (ty, c2) ∧
+      id = c2.symbolMap.variableList.size ∧
+      symbolDefineLoc sm (.var id) = loc ∧
+      symbolSignature sm (.var id) = (ty.getD .unknown).toStr ++ " " ++ name := by
+  rcases indexDefvar_typ n c c' h with hl | hr
+  · exact Or.inl hl
+  · obtain ⟨nameNode, name, loc, value, typ, c1, c2, v, h1, h2, h3, h4, h5, rfl, h7, rfl⟩ := hr
+    have h6 := hlater.2.2 _ _ h5
+    refine Or.inr ⟨nameNode, _, _, value, typ, c1, c2, _, h1, h2, h3, h4, rfl, ?_, ?_⟩
+    · simp only [symbolDefineLoc, SymMap.var, getElem!_of_getElem? _ _ _ h6]
+    · rw [signature_var sm _ v h6, h7]
+
+/-- `int x;` inside a record body -/
+def fdTree : PTree :=
+  .node .FieldDef 0 6 2 #[
+    .node .IntType 0 4 1 #[.token .Int 0 3 "int", .token .Whitespace 3 4 " "],
+    .node .Identifier 4 5 1 #[.token .Id 4 5 "x"],
+    .token .Semi 5 6 ";"]
+
+def fdCtx : IndexCtx :=
+  { ws := exWs, fileTrace := [0], indexedFiles := [0],
+    symbolMap := (SymMap.addRecord {} { name := "A", kind := .cls, defineLoc := ⟨0, 0, 0⟩ } false).2,
+    scopes := ({} : Scopes).push (.record 0) }
+
+/-- non-vacuity of `hover_signature_of_declared_type`: the run succeeds, and it is the second
+alternative that holds (`int A::x`) -/
+example : ∃ c', (Index.indexFieldDef (Index.mkRec 1) fdTree).run fdCtx = .ok ((), c') ∧
+    symbolSignature c'.symbolMap (.recordField 0) = "int A::x" := by
+  refine ⟨_, rfl, ?_⟩
+  decide +kernel
 
 end Tg.C19
